@@ -5,7 +5,7 @@ CXX := g++
 INC := -I/verif/rt -I/verif/harness -I$(REPO)/src -isystem /root/miniconda/include
 MCFLAGS := -std=gnu++20 -O2 -g -DNDEBUG -fsanitize=thread -U__SANITIZE_THREAD__ --param tsan-instrument-func-entry-exit=0 -Wno-tsan -Wno-deprecated-declarations $(INC)
 RTFLAGS := -std=gnu++20 -O2 -g -Wall -Wno-unused -Wno-volatile -Wno-misleading-indentation -Wno-format-truncation -Wno-return-type -I/verif/rt -isystem /root/miniconda/include
-LIBS := -lprotobuf -labsl_time -labsl_base -labsl_strings -labsl_hash -labsl_city -labsl_low_level_hash -labsl_raw_hash_set -labsl_throw_delegate -labsl_raw_logging_internal -labsl_int128 -ldl -lpthread
+LIBS := -lprotobuf -labsl_time -labsl_time_zone -labsl_base -labsl_strings -labsl_str_format_internal -labsl_hash -labsl_city -labsl_low_level_hash -labsl_raw_hash_set -labsl_throw_delegate -labsl_raw_logging_internal -labsl_int128 -ldl -lpthread
 
 # babylon translation units needed by the model-checking harnesses (compiled from the current working tree)
 BSRC := $(filter-out $(REPO)/src/babylon/reusable/message.trick.cpp $(REPO)/src/babylon/anyflow/builtin/expression.cpp, \
